@@ -2,9 +2,9 @@
 """Writes MANIFEST.json from the table below (single place to keep it valid)."""
 import json, os
 V = os.path.dirname(os.path.dirname(os.path.abspath(__file__)))
-HOOK_COMMITS = ["7ec0283"]
+HOOK_COMMITS = ["7ec0283", "1b6c537"]
 YATA_NOTE = ("Trusted: TLC + CommunityModules; harness adapters and observation functions (harness/src/obs.rs, codec.rs: "
-             "independent lib0-v1 decoder); hook H1 (yrs::verif, read-only). Small scope: exhaustive only within the G/D "
+             "independent lib0-v1 decoder); hook H1 (yrs::verif, read-only store dump), hook H3 (transaction trace sink for the repository test-suite stage). Small scope: exhaustive only within the G/D "
              "configuration bounds (2 authors, 3-4 operations, all delivery orders), beyond that seeded random schedules.")
 def yata(pid, text, tech):
     return {"property_id": pid, "quick_cmd": "./check %s --tier quick" % pid, "thorough_cmd": "./check %s --tier thorough" % pid,
